@@ -1,5 +1,6 @@
 SPECIFICATION Spec
 CONSTANT N = 3
+CONSTANT WithKeyref = FALSE
 INVARIANT WalkBounded
 INVARIANT EmitInv
 CHECK_DEADLOCK FALSE
